@@ -139,7 +139,58 @@ def _store_accesses(a, attr: str):
                 kind = 'prune'
             elif isinstance(par, ast.Call) and n in par.args:
                 kind = 'escape'
+                # handed to a private helper of the same module: the helper's parameter is the store (what it does with it counts)
+                h = a.extents.helper_for_call(f, f, par) or a.extents.shared_helper_for_call(f, par)
+                if h is not None:
+                    params = [x.arg for x in h.node.args.args]
+                    if isinstance(par.func, ast.Attribute) and h.cls is not None:
+                        params = params[1:]
+                    idx = par.args.index(n)
+                    if idx < len(params):
+                        sub = _param_accesses(a, h, params[idx])
+                        if sub is not None:
+                            out.extend(sub)
+                            continue
             out.append((f, n, kind, par))
+    return out
+
+
+def _param_accesses(a, h, pname: str, depth: int = 0):
+    """accesses a helper makes to the store it received as parameter PNAME (same kinds as _store_accesses); None when the parameter
+    is re-bound or escapes further in a way that cannot be followed"""
+    out = []
+    pm = a.resolver.parents(h)
+    for n in walk_no_defs(h.node):
+        if not (isinstance(n, ast.Name) and n.id == pname):
+            continue
+        if isinstance(n.ctx, (ast.Store, ast.Del)):
+            return None
+        par = pm.get(id(n))
+        kind = 'read'
+        if isinstance(par, ast.Subscript) and par.value is n:
+            kind = {'Store': 'write', 'Del': 'delete'}.get(type(par.ctx).__name__, 'read')
+        elif isinstance(par, ast.Attribute) and par.value is n:
+            gp = pm.get(id(par))
+            if isinstance(gp, ast.Call) and gp.func is par:
+                kind = 'mutate' if par.attr in CONTAINER_MUTATORS else 'read'
+        elif isinstance(par, ast.Call) and n in par.args and dotted(par.func).split('.')[-1] == 'prune_dict':
+            kind = 'prune'
+        elif isinstance(par, ast.Call) and n in par.args:
+            h2 = a.extents.helper_for_call(h, h, par) or a.extents.shared_helper_for_call(h, par)
+            if h2 is None or depth >= 2:
+                kind = 'escape'
+            else:
+                ps = [x.arg for x in h2.node.args.args]
+                if isinstance(par.func, ast.Attribute) and h2.cls is not None:
+                    ps = ps[1:]
+                i = par.args.index(n)
+                sub = _param_accesses(a, h2, ps[i], depth + 1) if i < len(ps) else None
+                if sub is None:
+                    kind = 'escape'
+                else:
+                    out.extend(sub)
+                    continue
+        out.append((h, n, kind, par))
     return out
 
 
@@ -235,8 +286,11 @@ def r2_ownership(a, tier):
     # the reader: memo() result is returned/raised unchanged by rule_call, nothing else branches on it
     rc = a.p.func(f'{ENGINE}.rule_call')
     reads = [n for n in walk_no_defs(rc.node) if isinstance(n, ast.Assign) and isinstance(n.value, ast.Call) and dotted(n.value.func) == 'self.memo']
-    if len(reads) != 1:
-        rep.fail(rc.qualname, 'memo-read', f'rule_call reads the memo {len(reads)} times (expected once, first)', rc.loc)
+    all_reads = [n for n in walk_no_defs(rc.node) if isinstance(n, ast.Call) and dotted(n.func) == 'self.memo']
+    if len(all_reads) != 1:
+        rep.fail(rc.qualname, 'memo-read', f'rule_call reads the memo {len(all_reads)} times (expected once, first)', rc.loc)
+    elif len(reads) != 1:
+        rep.notes.append('rule_call consumes self.memo(key) without binding it to a local (e.g. a match statement): what happens to a hit is decided by the replay contract C04.R6')
     else:
         var = reads[0].targets[0].id if isinstance(reads[0].targets[0], ast.Name) else '?'
         first = rc.node.body[0] is reads[0] or (isinstance(rc.node.body[0], ast.Expr) and rc.node.body[1] is reads[0])
@@ -461,8 +515,14 @@ def _dependent_region(fn, pm, node: ast.If) -> list[ast.stmt]:
     return region
 
 
-def _memo_only_effect(s: ast.stmt) -> str | None:
-    """None when statement S only touches the memo store / locals; otherwise a description of the other effect"""
+def _is_memo_store(e: ast.expr, memo_names=frozenset()) -> bool:
+    return norm(e).endswith('._memos') or (isinstance(e, ast.Name) and e.id in memo_names)
+
+
+def _memo_only_effect(s: ast.stmt, a=None, f=None, memo_names=frozenset(), depth: int = 0) -> str | None:
+    """None when statement S only touches the memo store / locals; otherwise a description of the other effect.  MEMO_NAMES are
+    parameters of a private helper that received the store; calls to private helpers that themselves only touch the store they are
+    given (or self._memos) are no other effect."""
     if isinstance(s, (ast.Pass, ast.FunctionDef, ast.Continue, ast.Break)):
         return None
     if isinstance(s, ast.Return):
@@ -471,19 +531,28 @@ def _memo_only_effect(s: ast.stmt) -> str | None:
         return None
     if isinstance(s, ast.Expr) and isinstance(s.value, ast.Call):
         c = s.value
-        if dotted(c.func).split('.')[-1] == 'prune_dict' and c.args and norm(c.args[0]).endswith('._memos'):
+        if dotted(c.func).split('.')[-1] == 'prune_dict' and c.args and _is_memo_store(c.args[0], memo_names):
             return None
-        if isinstance(c.func, ast.Attribute) and norm(c.func.value).endswith('._memos'):
+        if isinstance(c.func, ast.Attribute) and _is_memo_store(c.func.value, memo_names):
             return None
-        if isinstance(c.func, ast.Attribute) and c.func.attr.startswith('_prune_memos'):
-            return None  # private pruning helper; its own accesses are decided by the ownership rule
+        if a is not None and f is not None and depth < 3:
+            h = a.extents.helper_for_call(f, f, c) or a.extents.shared_helper_for_call(f, c)
+            if h is not None:
+                params = [x.arg for x in h.node.args.args]
+                if isinstance(c.func, ast.Attribute) and h.cls is not None:
+                    params = params[1:]
+                names = frozenset(p_ for p_, arg in zip(params, c.args) if _is_memo_store(arg, memo_names))
+                sub = [e for st in h.node.body for e in [_memo_only_effect(st, a, h, names, depth + 1)] if e]
+                if not sub:
+                    return None
+                return f'calls `{norm(c)[:60]}`, which {sub[0]}'
         return f'calls `{norm(c)[:60]}`'
     if isinstance(s, (ast.Assign, ast.AnnAssign)):
         targets = s.targets if isinstance(s, ast.Assign) else [s.target]
         for t in targets:
             if isinstance(t, ast.Name):
                 continue
-            if isinstance(t, ast.Subscript) and norm(t.value).endswith('._memos'):
+            if isinstance(t, ast.Subscript) and _is_memo_store(t.value, memo_names):
                 continue
             return f'stores `{norm(t)}`'
         v = s.value
@@ -492,7 +561,7 @@ def _memo_only_effect(s: ast.stmt) -> str | None:
         return None
     if isinstance(s, ast.If):
         for x in (*s.body, *s.orelse):
-            e = _memo_only_effect(x)
+            e = _memo_only_effect(x, a, f, memo_names, depth)
             if e:
                 return e
         return None
@@ -544,7 +613,7 @@ def r5_settings_gate_only_the_store(a, tier):
                          f'than deciding whether to store/prune memos', f'{f.module.relpath}:{r.lineno}')
                 continue
             region = _dependent_region(f, pm, test_if)
-            effects = [(s, e) for s in region for e in [_memo_only_effect(s)] if e]
+            effects = [(s, e) for s in region for e in [_memo_only_effect(s, a, f)] if e]
             rep.add({'function': f.qualname, 'reads': r.attr, 'test': norm(test_if.test), 'dependent_statements': len(region),
                      'other_effects': [e for _, e in effects]})
             for s_, e in effects:
